@@ -186,6 +186,9 @@ type multipartResponseAggregator struct {
 	initialResponse *graphql.Response
 	deferResponses  []*graphql.Response
 	done            chan bool
+	// stopped is closed when the ticker goroutine has returned: from then on only the caller of
+	// Done writes to the ResponseWriter
+	stopped chan struct{}
 	// flushPanic holds what a flush on the ticker goroutine panicked with (a payload that cannot
 	// be encoded); Done re-raises it on the handler's goroutine, where it can be recovered
 	flushPanic any
@@ -202,8 +205,10 @@ func newMultipartResponseAggregator(
 	a := &multipartResponseAggregator{
 		boundary: boundary,
 		done:     make(chan bool, 1),
+		stopped:  make(chan struct{}),
 	}
 	go func() {
+		defer close(a.stopped)
 		ticker := time.NewTicker(tickerDuration)
 		defer ticker.Stop()
 		for {
@@ -238,6 +243,10 @@ func (a *multipartResponseAggregator) tickFlush(w http.ResponseWriter) {
 // Done flushes the remaining responses
 func (a *multipartResponseAggregator) Done(w http.ResponseWriter) {
 	a.done <- true
+	// A flush of the ticker goroutine may be under way, or start once more before it sees done;
+	// when the final flush below panics (a payload that cannot be encoded) the handler goes on to
+	// use w without the aggregator's lock.
+	<-a.stopped
 	a.mu.Lock()
 	p := a.flushPanic
 	a.mu.Unlock()
